@@ -35,6 +35,8 @@ pub struct TaskDump {
     pub end_time: i64,
     pub timestamp: i64,
     pub hooks: String,
+    /// the task was created by a lifecycle hook
+    pub is_hook: bool,
 }
 
 #[derive(Debug, Clone)]
@@ -68,13 +70,19 @@ pub enum TraceEvent<'a> {
         kind: String,
         state: String,
         emit_message: bool,
-        dump: &'a dyn Fn() -> ProcDump,
+        uses: String,
+        key: String,
+        prev: Option<String>,
+        level: usize,
+        is_hook: bool,
+        /// argument: full (with serialised data, hooks, env) or structural only
+        dump: &'a dyn Fn(bool) -> ProcDump,
     },
     /// a process event is reported to the runtime
     ProcEvent {
         pid: &'a str,
         state: String,
-        dump: &'a dyn Fn() -> ProcDump,
+        dump: &'a dyn Fn(bool) -> ProcDump,
     },
     /// a message is generated for the channel `message | start | complete | error`
     Emit {
@@ -169,7 +177,12 @@ pub(crate) fn trace_task_event(task: &Arc<crate::scheduler::Task>, emit_message:
             kind: task.node().kind().to_string(),
             state: task.state_quiet().into(),
             emit_message,
-            dump: &move || dump_proc(&proc),
+            uses: task.node().uses(),
+            key: task.node().key(),
+            prev: task.prev(),
+            level: task.node().level,
+            is_hook: task.is_event_processed(),
+            dump: &move |full| dump_proc_with(&proc, full),
         });
     }
 }
@@ -180,7 +193,7 @@ pub(crate) fn trace_proc_event(proc: &Arc<crate::scheduler::Process>) {
         h.trace(&TraceEvent::ProcEvent {
             pid: proc.id(),
             state: proc.state().into(),
-            dump: &move || dump_proc(&p),
+            dump: &move |full| dump_proc_with(&p, full),
         });
     }
 }
@@ -192,6 +205,11 @@ pub(crate) fn trace_emit(channel: &'static str, msg: &crate::Message) {
 }
 
 pub(crate) fn dump_proc(proc: &Arc<crate::scheduler::Process>) -> ProcDump {
+    dump_proc_with(proc, true)
+}
+
+/// `full = false` leaves out the serialised data, hooks and env (cheap structural view)
+pub(crate) fn dump_proc_with(proc: &Arc<crate::scheduler::Process>, full: bool) -> ProcDump {
     let mut tasks: Vec<TaskDump> = proc
         .tasks_quiet()
         .iter()
@@ -204,12 +222,17 @@ pub(crate) fn dump_proc(proc: &Arc<crate::scheduler::Process>) -> ProcDump {
             level: t.node().level,
             state: t.state_quiet().into(),
             prev: t.prev(),
-            data: t.data().to_string(),
+            data: if full { t.data().to_string() } else { String::new() },
             err: t.err().map(|e| e.to_string()),
             start_time: t.start_time(),
             end_time: t.end_time(),
             timestamp: t.timestamp,
-            hooks: serde_json::to_string(&t.hooks()).unwrap_or_default(),
+            is_hook: t.is_event_processed(),
+            hooks: if full {
+                serde_json::to_string(&t.hooks()).unwrap_or_default()
+            } else {
+                String::new()
+            },
         })
         .collect();
     tasks.sort_by(|a, b| a.tid.cmp(&b.tid));
@@ -218,7 +241,7 @@ pub(crate) fn dump_proc(proc: &Arc<crate::scheduler::Process>) -> ProcDump {
         mid: proc.model().id.clone(),
         state: proc.state().into(),
         err: proc.err().map(|e| e.to_string()),
-        env: proc.env().to_string(),
+        env: if full { proc.env().to_string() } else { String::new() },
         start_time: proc.start_time(),
         end_time: proc.end_time(),
         tasks,
@@ -336,6 +359,17 @@ impl VerifHandle {
             .into_iter()
             .find(|p| p.id() == pid)?;
         Some(dump_proc(&proc))
+    }
+
+    /// as `dump` without the serialised data, hooks and env
+    pub fn dump_light(&self, pid: &str) -> Option<ProcDump> {
+        let proc = self
+            .rt
+            .cache()
+            .procs()
+            .into_iter()
+            .find(|p| p.id() == pid)?;
+        Some(dump_proc_with(&proc, false))
     }
 
     pub fn procs(&self) -> Arc<dyn crate::DbCollection<Item = crate::data::Proc>> {
